@@ -242,6 +242,33 @@ func init() {
 						viol(fmt.Sprintf("removing %s re-routes %d keys it did not own (cluster of %d)", set[ri], moved, len(set)), "removal-not-local", map[string]interface{}{"nodes": set, "removed": set[ri]})
 					}
 					rep.Evaluations++
+					// the same membership change applied to a LIVE ring (Reset): routing is a
+					// function of the key and the node set, not of the ring's history — shrink,
+					// replace one node at equal size, grow back
+					live := cluster.New(mkBuckets(set))
+					replaced := append(append([]string{}, rest...), fmt.Sprintf("10.9.%d.%d:11211", si, ri))
+					for _, target := range [][]string{rest, replaced, set, rest[:1+len(rest)/2]} {
+						live.Reset(mkBuckets(target))
+						fresh := cluster.New(mkBuckets(target))
+						diff, first := 0, ""
+						for _, k := range keys[:4000] {
+							if a, b := live.Hash(k).Label(), fresh.Hash(k).Label(); a != b {
+								if diff == 0 {
+									first = fmt.Sprintf("%s -> %s, a fresh ring says %s", k, a, b)
+								}
+								diff++
+							}
+						}
+						lp, _ := live.VerifRing()
+						fp, _ := fresh.VerifRing()
+						if diff > 0 || len(lp) != len(fp) {
+							viol(fmt.Sprintf("a ring of %d nodes reset to %d nodes routes %d of 4000 keys differently from a ring built for those nodes (%s); ring points %d vs %d", len(set), len(target), diff, first, len(lp), len(fp)),
+								"reset-depends-on-history", map[string]interface{}{"before": set, "after": target})
+							break
+						}
+						rep.Evaluations++
+						rep.Distribution["ring-resets"]++
+					}
 				}
 			}
 		}
